@@ -1730,6 +1730,32 @@ def _where3(i, c, x, y):
     return f3(c, x, y)
 
 
+def _np_roll(i, a, k):
+    """numpy.roll of a 1-D array by a concrete non-negative shift: out[k] = a[(k - s) mod n] - the first s entries wrap to the END"""
+    arr = a[0]
+    s_ = a[1] if len(a) > 1 else k.get('shift')
+    if not isinstance(s_, int) or isinstance(s_, bool) or s_ < 0 or 'axis' in k or len(a) > 2:
+        raise OutOfSubset('numpy.roll with a symbolic / negative shift or an axis')
+    if isinstance(arr, Vec):
+        e = list(arr.e)
+        if not e:
+            return Vec(e)
+        s2 = s_ % len(e)
+        return Vec(e[-s2:] + e[:-s2]) if s2 else Vec(e)
+    if isinstance(arr, Arr) and arr.cols is None:
+        n, fn = arr.n, arr.fn
+
+        def f(kk):
+            c = ops.compare('<', kk, s_)
+            lo = ops.arith('+', ops.arith('-', kk, s_), n)
+            hi = ops.arith('-', kk, s_)
+            if isinstance(c, bool):
+                return fn(lo if c else hi)
+            return ops.ite(c.t, fn(lo), fn(hi))
+        return Arr(n, f, np=True)
+    raise OutOfSubset('numpy.roll of ' + type(arr).__name__)
+
+
 def _np_maximum(i, a, k):
     return elementwise2(i, ops.np_max2, a[0], a[1])
 
@@ -2163,6 +2189,7 @@ def ext_call(name):
             'numpy.full_like': lambda i, a, k: _np_like(i, a, k, a[1] if len(a) > 1 else k['fill_value']),
             'numpy.concatenate': _np_concatenate, 'numpy.delete': _np_delete, 'numpy.floor': _np_floor,
             'numpy.ceil': _np_ceil, 'numpy.all': np_all, 'numpy.any': np_any, 'numpy.where': _np_where,
+            'numpy.roll': _np_roll,
             'numpy.maximum': _np_maximum, 'numpy.minimum': _np_minimum, 'numpy.max': _np_max, 'numpy.min': _np_min,
             'numpy.amax': _np_max, 'numpy.amin': _np_min, 'numpy.nanmax': _np_max, 'numpy.nanmin': _np_min,
             'numpy.sum': _np_sum, 'numpy.mean': _np_mean, 'numpy.lib.stride_tricks.sliding_window_view': _np_sliding_window_view, 'numpy.dot': _np_dot, 'numpy.convolve': _np_convolve, 'numpy.arange': _np_arange, 'numpy.ones': _np_ones, 'numpy.abs': _b_abs, 'numpy.absolute': _b_abs, 'numpy.array_equal': _np_array_equal, 'numpy.array_equiv': _np_array_equiv, 'numpy.gcd.reduce': _np_gcd_reduce, 'numpy.lcm.reduce': _np_lcm_reduce,
